@@ -413,11 +413,13 @@ def _bounds_scan(v: List[int], bad: List[int]) -> bool:
         def ilsdrf(d, **kw):
             calls.append(kw); return iter(list(reversed(names)) if kw.get('reverse') else list(names))
     old = (H.list_drf, H.print) if hasattr(H, 'print') else (H.list_drf, None)
-    H.list_drf = LD; H.print = lambda *a, **k: None
+    old_access = H.os.access
+    # every listed file existed when it was listed (probing it then succeeds); it may be gone or unreadable when it is opened
+    H.list_drf = LD; H.print = lambda *a, **k: None; H.os.access = lambda p, m: True
     try:
         got = t._get_bounds()
     finally:
-        H.list_drf = old[0]
+        H.list_drf = old[0]; H.os.access = old_access
     good = [i for i in range(len(v)) if bad[i] == 0]
     exp = (v[good[0]], v[good[-1]] + 5) if good else (None, None)
     flags_ok = all(k.get('include_drf') is True and k.get('include_dmd') is False and k.get('include_drf_properties') is False and k.get('recursive') is False for k in calls)
@@ -478,12 +480,15 @@ class _OD:
         raise KeyError(k)
 
 
-def _vector_raw(start: int, vlen: int, nblocks: int, got_len: int, nsub: int, sub: Optional[int]) -> bool:
+def _vector_raw(start: int, vlen: int, nblocks: int, got_len: int, nsub: int, sub: Optional[int], off: int) -> bool:
     """
     pre: 0 <= start <= 2 and 0 <= nblocks <= 2 and 1 <= got_len <= 4 and 1 <= nsub <= 3 and -1 <= vlen <= 4
     pre: sub is None or 0 <= sub < nsub
+    pre: 0 <= off <= 3 and (off == 0 or off + got_len <= vlen)
     post: _
     """
+    # `off`: the first block read() returns may start after the requested start (a gap at the beginning of the range); read() clips its
+    # blocks to the requested range (R1), hence off + got_len <= vlen in that case
     # read() is replaced by a stub returning `nblocks` blocks, the first of got_len samples; the vector read must return the block iff
     # there is exactly one block and it has exactly vlen samples (shape (vlen,) or (vlen, nsub)), and raise IOError (only) otherwise
     r = H.DigitalRFReader.__new__(H.DigitalRFReader)
@@ -492,13 +497,13 @@ def _vector_raw(start: int, vlen: int, nblocks: int, got_len: int, nsub: int, su
     z = _Arr(shape)
     def fake_read(s0, s1, ch, sc=None):
         calls.append((s0, s1, ch, sc))
-        return _OD([(s0 + 100 * i, z if i == 0 else _Arr(shape, 'other')) for i in range(nblocks)])
+        return _OD([(s0 + off + 100 * i, z if i == 0 else _Arr(shape, 'other')) for i in range(nblocks)])
     r.read = fake_read
     try:
         out = r.read_vector_raw(start, vlen, 'ch', sub)
     except IOError:
-        return vlen < 1 or nblocks != 1 or got_len != vlen
-    if vlen < 1 or nblocks != 1 or got_len != vlen: return False
+        return vlen < 1 or nblocks != 1 or got_len != vlen or off != 0
+    if vlen < 1 or nblocks != 1 or got_len != vlen or off != 0: return False
     ok_shape = out.shape in ((vlen,), (vlen, nsub)) and (out.shape == (vlen,) or nsub > 1 or sub is None)
     return calls == [(start, start + vlen - 1, 'ch', sub)] and out.tag == 'z' and ok_shape and out.shape[0] == vlen
 
